@@ -10,49 +10,66 @@
 (* (ResourceDirectoryTrace.tla).                                            *)
 (*                                                                          *)
 (* Time is counted in quanta (the driver maps one quantum to 15 s, so that  *)
-(* lifetimes >= 60 s and the 15 s grace period are whole numbers).          *)
-EXTENDS Naturals, Sequences, FiniteSets
+(* ordinary lifetimes and the 15 s grace period are whole numbers); a       *)
+(* lifetime may carry a remainder of seconds (lx, see the vocabulary).      *)
+EXTENDS ResourceDirectoryVocab
 
 CONSTANTS Grace,       \* Registration.grace_period            (quanta)
           DefaultLt    \* lifetime when no lt is given (90000 s) (quanta)
 
 (* An event is a record                                                      *)
-(*  [k, t, src, ep, d, loc, lt, base, x, links, var, vg, cls, n, eps, res]   *)
-(*  k     "reg"   POST to the registration resource with ep, d, lt, base,    *)
-(*                extra attribute x, link set `links'; loc = the location    *)
+(*  [k, t, src, ep, d, loc, lt, lx, base, x, links, var, vg, cls, n, eps,    *)
+(*   res, iface, crit, cnt, first, pages, pcls]                              *)
+(*  k     "reg"   POST to the directory resource with ep, d, lt, base,       *)
+(*                extra attributes x, link set `links'; loc = the location   *)
 (*                returned (0: none)                                         *)
+(*        "sreg"  simple registration: POST to /.well-known/rd (or           *)
+(*                /.well-known/core) with ep, d, lt, x; the directory        *)
+(*                fetches the link set from the registrant; no location is   *)
+(*                returned (it shows in the next endpoint lookup)            *)
 (*        "upd"   POST to location loc       "put"  PUT to location loc      *)
 (*        "del"   DELETE of location loc                                     *)
-(*        "lkep"  endpoint lookup: eps = set of [loc, ep, d, base, x]        *)
-(*        "lkres" resource lookup: res = set of [base, ep, d, link]          *)
-(*                n = number of entries in the payload (multiplicity)        *)
+(*        "lkep"  endpoint lookup without query: eps = sequence of           *)
+(*                [loc, ep, d, base, xs] (base: the URI shown; xs: the other *)
+(*                attributes, sequence of <<key, value>>)                    *)
+(*        "lkres" resource lookup without query: res = sequence of           *)
+(*                [href, anchor, attrs] (anchor "" = none shown)             *)
+(*        "flk"   filtered lookup on interface iface ("ep" / "res") with the *)
+(*                search criteria crit (sequence of [k, v, w, loc]: key,     *)
+(*                value, w = 1: the value is followed by "*", loc # 0: the   *)
+(*                criterion is href=<registration resource loc>); the result *)
+(*                is in eps / res; with cnt > 0 the same query was repeated  *)
+(*                with count=cnt (result: first) and with page=0,1,...       *)
+(*                &count=cnt (results: pages); pcls = class of the worst     *)
+(*                answer to those                                            *)
 (*  t     time of the request (quanta);  src  number of the requesting peer  *)
-(*  lt, base, x, links: 0 = not given.  base: 1..99 explicit base URI,       *)
-(*        100 + n = base derived from the address of peer n                  *)
+(*  lt, lx, base, x, links: 0 = not given                                    *)
 (*  var / vg   which valid/invalid form of the request was sent (label and   *)
 (*        its group; used only for blame, never to decide success)           *)
-(*  cls   class of the response code (2, 4, 5)                               *)
+(*  cls   class of the response code (2, 4, 5);  n  number of entries        *)
 
 Has(f, k) == k \in DOMAIN f
 Put(f, k, v) == [y \in (DOMAIN f) \cup {k} |-> IF y = k THEN v ELSE f[y]]
 Drop(f, ks) == [y \in (DOMAIN f) \ ks |-> f[y]]
+Range(s) == {s[i] : i \in DOMAIN s}
+Min2(a, b) == IF a < b THEN a ELSE b
 
-SrcBase(src) == 100 + src
 EffLt(v) == IF v = 0 THEN DefaultLt ELSE v
+\* the lifetime a request asks for: [q, r] = q quanta + r seconds
+EffLife(e) == IF e.lx # 0 THEN [q |-> LtX(e.lx).q, r |-> LtX(e.lx).r] ELSE [q |-> EffLt(e.lt), r |-> 0]
+GivesLt(e) == e.lt # 0 \/ e.lx # 0
 
-(* the link sets the driver registers; every link is owned by its (ep, d)    *)
-LinksOf(L) == CASE L = 1 -> {"a:r1"}
-                [] L = 2 -> {"a:r2", "b:r1"}
-                [] L = 3 -> {"b:r2"}
-                [] OTHER -> {}
+\* extra attributes as a map; an update replaces the keys it gives
+XMap(x) == LET s == XAttrs(x) IN [k \in {s[i][1] : i \in DOMAIN s} |-> s[CHOOSE i \in DOMAIN s : s[i][1] = k][2]]
+MergeX(old, x) == LET new == XMap(x) IN [k \in (DOMAIN old) \cup (DOMAIN new) |-> IF k \in DOMAIN new THEN new[k] ELSE old[k]]
 
 ObsInit == [ book  |-> << >>,   \* <<ep, d>> -> latest successful write of a registration that was not removed
              bad   |-> {},      \* clauses found false
              blame |-> {} ]     \* <<k, vg, cls>> of the failed writes a violation is attributed to
 
 (* a registration of the book is listed at time t iff its latest successful  *)
-(* write is younger than lifetime + grace                                    *)
-Live(b, t) == t < b.w + b.lt + Grace
+(* write is younger than lifetime + grace:  15 t < 15 (w + lq + Grace) + lr  *)
+Live(b, t) == LET a == t - b.w - Grace - b.lq IN a < 0 \/ (a = 0 /\ b.lr > 0)
 LiveKeys(o, t) == {q \in DOMAIN o.book : Live(o.book[q], t)}
 (* the registrations of the book a request to location loc is aimed at: the  *)
 (* live one(s) with that location, else expired ones that were not removed   *)
@@ -67,20 +84,26 @@ FlagIf(o, cond, c) == IF cond THEN Flag(o, c, {}) ELSE o
 Taint(o, qs, e) ==
   [o EXCEPT !.book = [q \in DOMAIN @ |-> IF q \in qs THEN [@[q] EXCEPT !.taint = {<<e.k, e.vg, e.cls>>}] ELSE @[q]]]
 
-(* -- registration ---------------------------------------------------------- *)
+(* -- registration (k = "reg") and simple registration (k = "sreg") ---------- *)
 (* (a location handed out while the book has another live registration      *)
 (* there is judged by the lookups: either both are listed with one location *)
-(* -- LocationsDistinct -- or the older one is missing)                     *)
+(* -- LocationsDistinct -- or the older one is missing.)  A simple          *)
+(* registration returns no location: a re-registration must keep the one    *)
+(* the book has (keep; judged at the next endpoint lookup), a new one gets  *)
+(* loc 0 = "whatever the next endpoint lookup shows".                       *)
 ObsReg(o, e) ==
-  LET key  == <<e.ep, e.d>>
-      live == Has(o.book, key) /\ Live(o.book[key], e.t)
-  IN IF e.cls = 2 /\ e.loc # 0
-       THEN LET o1 == FlagIf(o, live /\ o.book[key].loc # e.loc, "C20_ReRegisterKeepsLocation")
+  LET key    == <<e.ep, e.d>>
+      live   == Has(o.book, key) /\ Live(o.book[key], e.t)
+      simple == e.k = "sreg"
+  IN IF e.cls = 2 /\ (e.loc # 0 \/ simple)
+       THEN LET o1 == FlagIf(o, ~simple /\ live /\ o.book[key].loc # e.loc, "C20_ReRegisterKeepsLocation")
+                loc == IF simple THEN (IF live THEN o.book[key].loc ELSE 0) ELSE e.loc
                 \* expired, never removed registrations that had this location are superseded
-                stale == {q \in DOMAIN o.book : o.book[q].loc = e.loc /\ ~Live(o.book[q], e.t)}
-                new == [loc |-> e.loc, lt |-> EffLt(e.lt),
+                stale == IF loc = 0 THEN {} ELSE {q \in DOMAIN o.book : o.book[q].loc = loc /\ ~Live(o.book[q], e.t)}
+                lf  == EffLife(e)
+                new == [loc |-> loc, keep |-> simple /\ live, lq |-> lf.q, lr |-> lf.r,
                         base |-> IF e.base # 0 THEN e.base ELSE SrcBase(e.src),
-                        expl |-> e.base # 0, x |-> e.x, links |-> e.links,
+                        expl |-> e.base # 0, xs |-> XMap(e.x), links |-> e.links,
                         w |-> e.t, taint |-> {}]
             IN [o1 EXCEPT !.book = Put(Drop(@, stale), key, new)]
      ELSE IF e.cls # 2 /\ live
@@ -90,10 +113,12 @@ ObsReg(o, e) ==
 (* -- update (POST) and replace (PUT) of a registration resource ------------ *)
 ObsUpd(o, e) ==
   LET qs == AtLoc(o, e.loc, e.t)
-      Upd(b) == [b EXCEPT !.lt    = IF e.lt # 0 THEN e.lt ELSE @,
+      lf == EffLife(e)
+      Upd(b) == [b EXCEPT !.lq    = IF GivesLt(e) THEN lf.q ELSE @,
+                          !.lr    = IF GivesLt(e) THEN lf.r ELSE @,
                           !.base  = IF e.base # 0 THEN e.base ELSE IF b.expl THEN @ ELSE SrcBase(e.src),
                           !.expl  = b.expl \/ e.base # 0,
-                          !.x     = IF e.x # 0 THEN e.x ELSE @,
+                          !.xs    = MergeX(@, e.x),
                           !.links = IF e.k = "put" THEN e.links ELSE @,
                           !.w     = e.t,
                           !.taint = {}]
@@ -103,12 +128,40 @@ ObsUpd(o, e) ==
 
 ObsDel(o, e) == IF e.cls = 2 THEN [o EXCEPT !.book = Drop(@, AtLoc(o, e.loc, e.t))] ELSE o
 
-(* -- lookups ------------------------------------------------------------------ *)
-EpRec(q, b) == [loc |-> b.loc, ep |-> q[1], d |-> q[2], base |-> b.base, x |-> b.x]
-ResRecs(q, b) == {[base |-> b.base, ep |-> q[1], d |-> q[2], link |-> k] : k \in LinksOf(b.links)}
-
+(* -- what a lookup has to show ------------------------------------------------ *)
+EpRec(q, b) == LET xs == {<<k, b.xs[k]>> : k \in DOMAIN b.xs}
+               IN [loc |-> b.loc, ep |-> q[1], d |-> q[2], base |-> BaseUri(b.base), xs |-> xs, nx |-> Cardinality(xs)]
+\* an observed endpoint entry in the same form
+EpN(r) == [loc |-> r.loc, ep |-> r.ep, d |-> r.d, base |-> r.base, xs |-> Range(r.xs), nx |-> Len(r.xs)]
 ExpectedEps(o, t) == {EpRec(q, o.book[q]) : q \in LiveKeys(o, t)}
-ExpectedRes(o, t) == UNION {ResRecs(q, o.book[q]) : q \in LiveKeys(o, t)}
+
+\* resource entries: <<q, i>> = link i of registration q
+ItemsOf(o, q) == ResTab[o.book[q].base][o.book[q].links]
+ItemKeys(o, qs) == UNION {{<<q, i>> : i \in DOMAIN ItemsOf(o, q)} : q \in qs}
+ItemAt(o, it) == ItemsOf(o, it[1])[it[2]]
+ResRec(item) == [href |-> item.href, anc |-> item.anc, attrs |-> item.attrs, na |-> item.na]
+RecAt(o, it) == ResRec(ItemAt(o, it))
+(* an observed resource entry in the same form.  RFC 9176 section 6.1: the   *)
+(* links returned are semantically equivalent to the registered ones; an     *)
+(* entry shown without anchor has the root of its target as context, so a    *)
+(* registered anchor that equals that root may be left out                   *)
+ResN(r) == [href |-> r.href,
+            anc  |-> IF r.anchor # "" THEN r.anchor ELSE IF r.href \in DOMAIN RootTab THEN RootTab[r.href] ELSE "?",
+            attrs |-> Range(r.attrs), na |-> Len(r.attrs)]
+
+(* the entries of `got' (sequence) whose multiplicity is not between the     *)
+(* number of `lo' items and the number of `hi' items showing that entry      *)
+BadRecs(o, got, lo, hi) ==
+  LET gs  == Range(got)
+      his == {RecAt(o, it) : it \in hi}
+  IN IF lo = hi /\ Cardinality(gs) = Len(got) /\ Cardinality(his) = Cardinality(hi)
+       THEN (gs \ his) \cup (his \ gs)                       \* no entry occurs twice: sets
+     ELSE LET cg(r) == Cardinality({i \in DOMAIN got : got[i] = r})
+              cl(r) == Cardinality({it \in lo : RecAt(o, it) = r})
+              ch(r) == Cardinality({it \in hi : RecAt(o, it) = r})
+          IN {r \in gs \cup his : cg(r) < cl(r) \/ cg(r) > ch(r)}
+\* the registrations of the book (live or not) one of whose links shows as r
+Owners(o, r) == {q \in DOMAIN o.book : \E i \in DOMAIN ItemsOf(o, q) : RecAt(o, <<q, i>>) = r}
 
 (* failed writes that explain a difference at these registrations *)
 TaintOf(o, qs) == UNION {o.book[q].taint : q \in qs \cap DOMAIN o.book}
@@ -120,9 +173,26 @@ Mismatch(o, who) == IF \E f \in who : f[3] = 4
                       THEN Flag(o, "C20_FailedWriteChangesNothing", {f \in who : f[3] = 4})
                       ELSE Flag(o, "C20_LookupsAreLive", who)
 
-ObsLkEp(o, e) ==
-  LET exp  == ExpectedEps(o, e.t)
-      got  == e.eps
+(* what an endpoint lookup tells about locations the book does not know:    *)
+(* a simple registration gets the location the lookup shows for its key (an *)
+(* expired registration that had it is superseded); a simple                *)
+(* re-registration shown at another location than before did not keep it    *)
+Adopt(o, got, t) ==
+  LET shown(q) == {r.loc : r \in {g \in got : g.ep = q[1] /\ g.d = q[2]}}
+      one(q)   == Cardinality(shown(q)) = 1
+      fresh    == {q \in LiveKeys(o, t) : o.book[q].loc = 0 /\ one(q)}
+      moved    == {q \in LiveKeys(o, t) : o.book[q].keep /\ one(q) /\ shown(q) # {o.book[q].loc}}
+      book1    == [q \in DOMAIN o.book |->
+                     IF q \in fresh \cup moved THEN [o.book[q] EXCEPT !.loc = CHOOSE l \in shown(q) : TRUE, !.keep = FALSE]
+                     ELSE [o.book[q] EXCEPT !.keep = FALSE]]
+      taken    == {book1[q].loc : q \in fresh \cup moved}
+      stale    == {q \in DOMAIN book1 : q \notin fresh \cup moved /\ book1[q].loc \in taken /\ ~Live(book1[q], t)}
+  IN FlagIf([o EXCEPT !.book = Drop(book1, stale)], moved # {}, "C20_ReRegisterKeepsLocation")
+
+ObsLkEp(o0, e) ==
+  LET got  == {EpN(e.eps[i]) : i \in DOMAIN e.eps}
+      o    == IF e.cls = 2 THEN Adopt(o0, got, e.t) ELSE o0
+      exp  == ExpectedEps(o, e.t)
       diff == (exp \ got) \cup (got \ exp)
       who  == TaintOf(o, {<<r.ep, r.d>> : r \in diff})
       o1   == IF e.cls # 2 THEN (IF exp # {} THEN Flag(o, "C20_LookupsAreLive", {}) ELSE o)
@@ -135,20 +205,103 @@ ObsLkEp(o, e) ==
   IN o3
 
 ObsLkRes(o, e) ==
-  LET exp   == ExpectedRes(o, e.t)
-      got   == e.res
-      diff  == (exp \ got) \cup (got \ exp)
-      who   == TaintOf(o, {<<r.ep, r.d>> : r \in diff})
-  IN IF e.cls # 2 THEN (IF exp # {} THEN Flag(o, "C20_LookupsAreLive", {}) ELSE o)
-     ELSE IF diff # {} \/ e.n # Cardinality(exp) THEN Mismatch(o, who) ELSE o
+  LET got  == [i \in DOMAIN e.res |-> ResN(e.res[i])]
+      all  == ItemKeys(o, LiveKeys(o, e.t))
+      bad  == BadRecs(o, got, all, all)
+      who  == TaintOf(o, UNION {Owners(o, r) : r \in bad})
+  IN IF e.cls # 2 THEN (IF all # {} THEN Flag(o, "C20_LookupsAreLive", {}) ELSE o)
+     ELSE IF bad # {} \/ e.n # Cardinality(all) THEN Mismatch(o, who) ELSE o
+
+(* -- lookup filtering (RFC 9176 section 6.2) ---------------------------------- *)
+(* "A link matches a search criterion if it has an attribute of the same    *)
+(* name and the same value, allowing for a trailing "*" wildcard operator.  *)
+(* Attributes that are defined as relation-types match if the search value  *)
+(* matches any of their values.  A resource link also matches a search      *)
+(* criterion if its endpoint would match the criterion, and vice versa, an  *)
+(* endpoint link matches a search criterion if any of its resource links    *)
+(* matches it.  All included criteria MUST match for a link to be returned. *)
+(* href matches [resolved] target references; on a resource lookup also the *)
+(* registration resource of the endpoint."                                  *)
+(* Must... = the entry has to be returned; May... = it may be returned       *)
+(* (points the statement of C20 does not settle: the anchor a link has only  *)
+(* implicitly, base / rt=core.rd-ep / lt of the endpoint entry, rel and rev  *)
+(* as relation-types, a registration resource addressed by a string).        *)
+ValMatch(c, v) == IF c.w = 1 THEN IsPrefix(c.v, v) ELSE v = c.v
+RECURSIVE Tokens(_)
+Tokens(s) == IF s = "" THEN {}
+             ELSE LET e == Find(s, {" "}, 1)
+                  IN (IF e > 1 THEN {SubSeq(s, 1, e - 1)} ELSE {}) \cup (IF e >= Len(s) THEN {} ELSE Tokens(From(s, e + 1)))
+AnyToken(c, v) == \E tk \in Tokens(v) : ValMatch(c, tk)
+AttrMust(c, v) == IF c.k \in {"rt", "if"} THEN AnyToken(c, v) ELSE ValMatch(c, v)
+AttrMay(c, v)  == AttrMust(c, v) \/ (c.k \in {"rel", "rev"} /\ AnyToken(c, v))
+
+EpOwnMust(c, q, b) ==
+  \/ c.k = "ep" /\ ValMatch(c, q[1])
+  \/ c.k = "d" /\ q[2] # "" /\ ValMatch(c, q[2])
+  \/ c.k \in DOMAIN b.xs /\ AttrMust(c, b.xs[c.k])
+  \/ c.k = "href" /\ c.loc # 0 /\ c.loc = b.loc
+EpOwnMay(c, q, b) ==
+  \/ EpOwnMust(c, q, b)
+  \/ c.k \in DOMAIN b.xs /\ AttrMay(c, b.xs[c.k])
+  \/ c.k = "base" /\ ValMatch(c, BaseUri(b.base))
+  \/ c.k = "rt" /\ ValMatch(c, "core.rd-ep")
+  \/ c.k = "lt"
+  \/ c.k = "href" /\ c.loc = 0 /\ (c.v = "" \/ IsPrefix("/", c.v))
+LinkMust(c, item) ==
+  \/ c.k = "href" /\ c.loc = 0 /\ ValMatch(c, item.href)
+  \/ c.k = "anchor" /\ item.hasanc /\ ValMatch(c, item.anc)
+  \/ c.k \notin {"href", "anchor"} /\ \E a \in item.attrs : Len(a) = 2 /\ a[1] = c.k /\ AttrMust(c, a[2])
+LinkMay(c, item) ==
+  \/ LinkMust(c, item)
+  \/ c.k = "anchor" /\ ValMatch(c, item.anc)
+  \/ c.k \notin {"href", "anchor"} /\ \E a \in item.attrs : a[1] = c.k /\ (Len(a) = 1 \/ AttrMay(c, a[2]))
+
+EpSel(o, q, crit, must) ==
+  \A j \in DOMAIN crit :
+     LET c == crit[j] b == o.book[q] IN
+     IF must THEN EpOwnMust(c, q, b) \/ \E i \in DOMAIN ItemsOf(o, q) : LinkMust(c, ItemsOf(o, q)[i])
+             ELSE EpOwnMay(c, q, b) \/ \E i \in DOMAIN ItemsOf(o, q) : LinkMay(c, ItemsOf(o, q)[i])
+ResSel(o, it, crit, must) ==
+  \A j \in DOMAIN crit :
+     LET c == crit[j] b == o.book[it[1]] IN
+     IF must THEN LinkMust(c, ItemAt(o, it)) \/ EpOwnMust(c, it[1], b)
+             ELSE LinkMay(c, ItemAt(o, it)) \/ EpOwnMay(c, it[1], b)
+
+(* paging: "count specifies how many links to return and page specifies     *)
+(* which subset of links organized in sequential pages, each containing     *)
+(* 'count' links, starting with link zero and page zero": the pages cut the *)
+(* result of the same query without page and count (fetched at the same     *)
+(* instant) into consecutive pieces, nothing lost, nothing twice            *)
+PagesOk(all, cnt, first, pages) ==
+  /\ first = SubSeq(all, 1, Min2(cnt, Len(all)))
+  /\ \A i \in DOMAIN pages : pages[i] = SubSeq(all, (i - 1) * cnt + 1, Min2(i * cnt, Len(all)))
+
+ObsFlk(o, e) ==
+  LET live == LiveKeys(o, e.t)
+      o1 == IF e.cls # 2 THEN Flag(o, "C20_FilteredLookupExact", {})
+            ELSE IF e.iface = "ep"
+              THEN LET got == {EpN(e.eps[i]) : i \in DOMAIN e.eps}
+                       lo  == {EpRec(q, o.book[q]) : q \in {p \in live : EpSel(o, p, e.crit, TRUE)}}
+                       hi  == {EpRec(q, o.book[q]) : q \in {p \in live : EpSel(o, p, e.crit, FALSE)}}
+                   IN FlagIf(o, ~(lo \subseteq got /\ got \subseteq hi /\ Cardinality(got) = Len(e.eps)), "C20_FilteredLookupExact")
+            ELSE LET got == [i \in DOMAIN e.res |-> ResN(e.res[i])]
+                     all == ItemKeys(o, live)
+                     lo  == {it \in all : ResSel(o, it, e.crit, TRUE)}
+                     hi  == {it \in all : ResSel(o, it, e.crit, FALSE)}
+                 IN FlagIf(o, BadRecs(o, got, lo, hi) # {}, "C20_FilteredLookupExact")
+      raw == IF e.iface = "ep" THEN e.eps ELSE e.res
+  IN IF e.cnt = 0 \/ e.cls # 2 THEN o1
+     ELSE FlagIf(o1, e.pcls # 2 \/ ~PagesOk(raw, e.cnt, e.first, e.pages), "C20_PagingPartitions")
 
 ObsEvent(o, e) ==
   CASE e.k = "reg"   -> ObsReg(o, e)
+    [] e.k = "sreg"  -> ObsReg(o, e)
     [] e.k = "upd"   -> ObsUpd(o, e)
     [] e.k = "put"   -> ObsUpd(o, e)
     [] e.k = "del"   -> ObsDel(o, e)
     [] e.k = "lkep"  -> ObsLkEp(o, e)
     [] e.k = "lkres" -> ObsLkRes(o, e)
+    [] e.k = "flk"   -> ObsFlk(o, e)
     [] OTHER         -> o
 
 RECURSIVE ObsFold(_, _)
@@ -156,11 +309,14 @@ ObsFold(o, es) == IF es = << >> THEN o ELSE ObsFold(ObsEvent(o, Head(es)), Tail(
 
 (* -- property clauses ------------------------------------------------------- *)
 Clauses == {"C20_LookupsAreLive", "C20_OnePerKey", "C20_ReRegisterKeepsLocation",
-            "C20_LocationsDistinct", "C20_FailedWriteChangesNothing"}
+            "C20_LocationsDistinct", "C20_FailedWriteChangesNothing",
+            "C20_FilteredLookupExact", "C20_PagingPartitions"}
 
 C20_LookupsAreLive(o)            == "C20_LookupsAreLive" \notin o.bad
 C20_OnePerKey(o)                 == "C20_OnePerKey" \notin o.bad
 C20_ReRegisterKeepsLocation(o)   == "C20_ReRegisterKeepsLocation" \notin o.bad
 C20_LocationsDistinct(o)         == "C20_LocationsDistinct" \notin o.bad
 C20_FailedWriteChangesNothing(o) == "C20_FailedWriteChangesNothing" \notin o.bad
+C20_FilteredLookupExact(o)       == "C20_FilteredLookupExact" \notin o.bad
+C20_PagingPartitions(o)          == "C20_PagingPartitions" \notin o.bad
 =============================================================================
